@@ -101,6 +101,26 @@ CHECKS = {
              "objects not compared, equality at every reference site is.",
         technique="TLA+ marshal writer enumerated exhaustively by TLC; behaviours replayed into xdis and CPython; TLC reference reader as judge",
     ),
+    "C13": dict(
+        category="model_checking",
+        text="The reference reader of S1 (MarshalTrace.tla) is pointed at xdis's *output*: each file is loaded by xdis's own unmarshaller and written "
+             "back with write_bytecode_file; TLC re-reads the written payload with the layout/format of the target magic and requires the tokens "
+             "of the originally loaded tree; the target interpreter itself (2.7, 3.6-3.13) loads the written file (fork-isolated: a bad file can "
+             "abort CPython 2.7) and its tree is judged by the same reader; xdis re-reads its output. A writer that raises is accepted.",
+        design_ref="DESIGN.md section 5 C13, spec S1 (S2 for the header)",
+        note="'Executing behaves identically' is reduced to code-object equality in the target. Two recorded findings (3.11+ layout, Python-2 types) "
+             "cover the eras where the writer is known not to work; 3.0-3.10 is checked without exemption.",
+        technique="TLC trace validation of the written bytes against the reference marshal reader; target interpreters as second reader",
+    ),
+    "C14": dict(
+        category="model_checking",
+        text="Both directions of S1 on plain values: the value space is every value tree MarshalGen.tla enumerates (TLC, exhaustive within budget) plus "
+             "boundary values; under each host (3.8-3.13) xdis.marsh.dumps(v) bytes are re-read by the reference reader against v's tokens and by the "
+             "host's marshal.loads; the host's marshal.dumps(v, 0) and (v, 1) bytes are read by xdis.marsh.loads and judged by the reference reader.",
+        design_ref="DESIGN.md section 5 C14, spec S1",
+        note="Text floats compared through the host's float(). Values are rebuilt from token lists by the harness.",
+        technique="TLC-enumerated value space; TLC trace validation of xdis.marsh output/input against the reference marshal reader; host marshal as oracle",
+    ),
 }
 
 NOT_YET = "check not built yet in this round (planned: see DESIGN.md section 5); not claimed until its machinery exists"
